@@ -695,3 +695,18 @@ func (a *FnAnalysis) Bounds() []string {
 	sort.Strings(out)
 	return out
 }
+
+// FactsAt returns the branch facts that hold on every path to the block, as
+// canonical condition -> truth value.
+func (a *FnAnalysis) FactsAt(b *ssa.BasicBlock) map[string]bool {
+	out := map[string]bool{}
+	for k, v := range a.mustIn[b] {
+		if k.isnil {
+			out["isnil("+a.D.Val(k.v)+")"] = v
+			continue
+		}
+		c := a.D.CanonCond(k.v)
+		out[c.Desc] = v != c.Neg
+	}
+	return out
+}
